@@ -15,15 +15,17 @@ import interstitial_common as ic
 
 META = dict(
     id='C09',
-    lean_modules=['OnsagerProofs.Lemmas.Variational', 'OnsagerModel.C02', 'OnsagerModel.C03', 'OnsagerModel.C09', 'OnsagerProofs.C02',
+    lean_modules=['OnsagerProofs.Lemmas.Variational', 'OnsagerProofs.Lemmas.Cover', 'OnsagerModel.C02', 'OnsagerModel.C03', 'OnsagerModel.C09', 'OnsagerProofs.C02',
                   'OnsagerProofs.C03', 'OnsagerProofs.C09'],
-    theorems=['Onsager.Var.Qmin_relabel', 'Onsager.C09.equiv_form_eq'],
+    theorems=['Onsager.Var.Qmin_relabel', 'Onsager.Var.Qmin_cover', 'Onsager.C09.equiv_form_eq', 'Onsager.C09.cover_form_eq'],
     tie_theorems=[],
-    level_text='Partial. Kernel-checked: two descriptions with the same number of sites per cell whose projected networks are carried '
+    level_text='Partial. Kernel-checked: (i) two descriptions with the same number of sites per cell whose projected networks are carried '
                'onto each other by a site bijection (atom permutation, unimodular change of lattice vectors) have equal exact '
-               'transport forms; the driver decides the hypothesis on the real networks. Supercell/conventional-cell descriptions '
-               '(different number of sites) are compared through the exact model value of each description and through the '
-               'implementation; vacancy-mediated coefficients through the implementation at Green-function accuracy.',
+               'transport forms (equiv_form_eq); (ii) a description with m times as many sites per cell (supercell, conventional cell) '
+               'that covers the primitive one - every site has m preimages and the jumps leaving a site are those of its image with '
+               'the per-cell probability divided by m - has the same exact transport form (cover_form_eq, from the covering lemma '
+               'Var.Qmin_cover). The driver decides both hypotheses on the real networks of the implementation. '
+               'Vacancy-mediated coefficients are compared through the implementation at Green-function accuracy only.',
     level_note='Trusted: Lean kernel + standard axioms; the Cartesian matching of sites and jump classes between descriptions (harness).',
     technique='Lean 4 relabelling theorem + decidable network-equivalence check + differential runs across descriptions',
     rule='crystals (FCC/BCC/HCP/SC hosts with interstitials, multi-site, 2-D) x re-descriptions (random unimodular basis, atom '
@@ -191,17 +193,27 @@ def run(ctx):
                 perm.append(next(k for k in range(d2.N) if same_mod(c1, cart_site(c2, chem, k) - shift, x)))
             lines.append('%s ; %s ; %s # %s # %s' % (','.join(ic.fr(x) for x in u), ','.join(ic.fr(x) for x in u2), ','.join(map(str, perm)), r1, r2))
             plan.append(('equiv', name, kind, c1, c2, D1, tol, rep))
+        elif d2.N % d1.N == 0 and d2.N > d1.N:
+            # supercell / conventional cell: covering map site-of-2 -> site-of-1, hypothesis of cover_form_eq decided by the driver
+            U = np.round(c1.invlatt @ c2.lattice).astype(int)
+            u = [Fraction(rng.randint(-3, 3)) for _ in range(c1.dim)]
+            if all(x == 0 for x in u): u[0] = Fraction(1)
+            u2 = [sum(Fraction(int(U[b, a])) * u[b] for b in range(c1.dim)) for a in range(c1.dim)]
+            proj = [next(i for i in range(d1.N) if same_mod(c1, cart_site(c2, chem, k) - shift, cart_site(c1, chem, i))) for k in range(d2.N)]
+            lines.append('%s ; %s ; %s ; %d # %s # %s' % (','.join(ic.fr(x) for x in u), ','.join(ic.fr(x) for x in u2), ','.join(map(str, proj)),
+                                                       d2.N // d1.N, r1, r2))
+            plan.append(('cover', name, kind, c1, c2, D1, tol, rep))
         else:
             lines.append('0 ; 0 ; 0 # %s # %s' % (r1, r1)); plan.append(('skip', name, kind, c1, c2, D1, tol, rep))
     answers = ctx.lean('Drive/C09.lean', lines, timeout=3000)
     for (what, name, kind, c1, c2, D1, tol, rep), ans in zip(plan, answers):
-        if what != 'equiv': continue
+        if what == 'skip': continue
         parts = ans.split()
-        ctx.count('equivcheck:' + (parts[0] if parts else '?'))
+        ctx.count(('equivcheck:' if what == 'equiv' else 'covercheck:') + (parts[0] if parts else '?'))
         if len(parts) != 3 or parts[0] != '1':
             ctx.disagree('the networks of %s and its %s re-description are not carried onto each other by the Cartesian site matching: %s' % (name, kind, ans), rep)
         elif parts[1] != parts[2]:
-            ctx.disagree('exact model: transport forms differ although equivcheck accepted (contradicts equiv_form_eq)', dict(rep, ans=ans))
+            ctx.disagree('exact model: transport forms differ although %s accepted (contradicts %s)' % (('equivcheck', 'equiv_form_eq') if what == 'equiv' else ('covercheck', 'cover_form_eq')), dict(rep, ans=ans))
     vacancy_part(ctx)
 
 
